@@ -127,12 +127,25 @@ def netOp (n : NSt) (w : List String) : NSt × String :=
         | none => (n, "ok")
       else (n, "ok")
     | _, _ => (n, "bad-op")
+  -- the peer reads what the library sends it (a SUB socket's subscription replay): no effect on the library's state
+  | ["rawdrain", c, _] =>
+    (match lookupN n.s.raws (num c) with
+     | none => (n, "bad-op no-raw")
+     | some rc => (n, if rc.hs == .registered && !rc.closedByLib then "drained" else if rc.closedByLib then "eof" else "short"))
   | ["rawwait", c, what] =>
     match lookupN n.s.raws (num c) with
     | none => (n, "bad-op no-raw")
     | some rc =>
       if what == "hs" then
         (n, if greetingValid rc.sent then "hs-ok" else if rc.closedByLib then "eof" else "none")
+      else if what == "hsdump" then
+        -- the library's side of the handshake, byte for byte: the greeting of `Model.Wire` (the one C01's theorems are
+        -- about) and a READY announcing the socket's own type — whichever side opened the connection
+        (n, if greetingValid rc.sent then
+              (match lookupN n.s.socks rc.sock with
+               | some so => s!"hs {hex (hsBytes (sockTypeString so.typ))}"
+               | none => "none")
+            else if rc.closedByLib then "eof" else "none")
       else if what == "greeting" then (n, "greeting-ok")     -- sent as soon as the connection's task runs
       else if what == "eof" || what == "open" then (n, if rc.closedByLib then "eof" else "open")
       else if what == "msg" then
@@ -195,6 +208,13 @@ def netOp (n : NSt) (w : List String) : NSt × String :=
   | ["monitor", sid] =>
     match lookupN n.s.socks (num sid) with
     | some so => ({ n with s := { n.s with socks := insertN n.s.socks (num sid) { so with monitor := true, events := [] } } }, "ok")
+    | none => (n, "bad-op no-sock")
+  -- the application drops the monitor's receiver: events go nowhere from now on, nothing else changes
+  | ["monitordrop", sid] =>
+    match lookupN n.s.socks (num sid) with
+    | some so =>
+      if !so.monitor then (n, "bad-op no-monitor") else
+      ({ n with s := { n.s with socks := insertN n.s.socks (num sid) { so with monitor := false, events := [] } } }, "ok")
     | none => (n, "bad-op no-sock")
   | "events" :: sid :: _ =>
     match lookupN n.s.socks (num sid) with
